@@ -1108,7 +1108,13 @@ func (h *sentPacketHandler) ResetForRetry(now monotime.Time) {
 		}
 	}
 	h.initialPackets = newPacketNumberSpace(h.initialPackets.pns.Peek(), false)
-	h.appDataPackets = newPacketNumberSpace(h.appDataPackets.pns.Peek(), true)
+	// Pop (instead of Peek) the next application data packet number: if the generator is about to skip a packet
+	// number, that number has to be recorded as skipped in the new packet number space.
+	skipped, nextPN := h.appDataPackets.pns.Pop()
+	h.appDataPackets = newPacketNumberSpace(nextPN, true)
+	if skipped {
+		h.appDataPackets.history.SkippedPacket(nextPN - 1)
+	}
 	oldAlarm := h.alarm
 	h.alarm = alarmTimer{}
 	if h.qlogger != nil {
